@@ -379,6 +379,11 @@ def rerun_witnesses(out, findings, default_fmt="json"):
     print KNOWN-FINDING only while the real code still shows the recorded behaviour"""
     for f in findings:
         w = f.get("witness")
+        if w and "text" in w and not f.get("dev"):
+            r = execute([{"id": 0, "op": "parse", "cddl": w["text"]}])[0]
+            if ("accepted" if r["obs"].get("ok") else "rejected") == w["observed"]:
+                out.known_hit(f["id"])
+            continue
         if not w or "cddl" not in w or f.get("dev"):
             continue
         fmt = w.get("fmt", default_fmt)
